@@ -171,7 +171,7 @@ def generate(ctx):
     ctx.extra["witness_call"] = w["steps"][0]
     # histories from the simulation model
     workers = 4
-    num = (60 if ctx.quick() else 1500)
+    num = (60 if ctx.quick() else 5000)
     sim = ctx.tlc("ClusterAPISim.tla", "ClusterAPISim.cfg", count=False, workers=workers, timeout=2400,
                   simulate="file=c04beh,num=%d" % num, depth=8, seed=ctx.seed)
     behs = tla.read_behaviours(ctx.specdir(), "c04beh")
